@@ -115,8 +115,8 @@ theorem mem_unresolvedOfElement_gen (env : Env) (top : List (Nat × Nat)) (frame
     constructor
     · intro hne p hp0 hp; exact hne ⟨p, hp0, (h.mem p n).2 hp⟩
     · rintro hall ⟨p, hp0, hp⟩; exact hall p hp0 ((h.mem p n).1 hp)
-  simp only [unresolvedOfElement, List.mem_append, List.mem_filterMap, elementPrefix_ok,
-    attributePrefix_ok]
+  simp only [unresolvedOfElement, List.mem_append, List.mem_filterMap, sc_elementPrefix_ok,
+    sc_attributePrefix_ok]
   constructor
   · rintro (h1 | ⟨a, hmem, h1⟩)
     · left
